@@ -662,6 +662,13 @@ func (graph *Graph) becameNecessaryRecursive(node INode) (err error) {
 		if !watchEdgePresent(node, sentinels) {
 			graph.link(node, sentinels)
 		}
+		// the watch edge is an edge like any other: the watched node sits above its sentinel
+		// (see watchNode)
+		if sentinels.Node().height >= node.Node().height {
+			if err = graph.adjustHeightsHeap.setHeight(node, sentinels.Node().height+1); err != nil {
+				return
+			}
+		}
 		graph.recomputeHeap.addIfNotPresent(sentinels)
 	}
 	if node.Node().isStale() {
@@ -847,6 +854,17 @@ func (graph *Graph) watchNode(sn ISentinel, input INode) error {
 	graph.link(input, sn)
 	if err := graph.adjustHeightsHeap.setHeight(sn, sn.Node().createdIn.scopeHeight()+1); err != nil {
 		return err
+	}
+	// The watch edge is an edge like any other: the sentinel is recomputed before the node
+	// it watches. Left at whatever heights the two happened to have, a sentinel at the
+	// watched node's own height shared a block with it under ParallelStabilize, and one
+	// worker read the node's stamps (shouldRecomputeChild) while another, recomputing the
+	// node, wrote them; a sentinel above the node re-queued it below the height the pass
+	// had reached, so that the node and everything downstream of it ran a second time.
+	if input.Node().height != HeightUnset && sn.Node().height >= input.Node().height {
+		if err := graph.adjustHeightsHeap.adjustHeights(graph.recomputeHeap, input, sn); err != nil {
+			return err
+		}
 	}
 	return nil
 }
